@@ -323,7 +323,8 @@ def compile_programs(dirname, items, configs=CONFIGS, timeout=600, workers=None)
     for i, (tag, p, src) in enumerate(items):
         res[tag] = BuiltProgram(tag, p, src or p.source)
         for cfg in configs:
-            jobs.append((i, tag, p, src or p.source, cfg))
+            # like the repository's runner: path relative to the repository root (it shows up in stack traces / .stderr files)
+            jobs.append((i, tag, p, src or p.source_rel, cfg))
 
     def one(j):
         i, tag, p, src, cfg = j
